@@ -391,3 +391,33 @@ def _order_chain(cx: Cx, ob: Ob, fn, s, seq, line) -> None:
             ob.violate(fn.qualname, where(fn, line), f"URI prefixes are ordered with `{show(srt)[:60]}`, not plain sorted order", detail="sort-key")
     if not (op(x) == "call" and x[1] == ("func", f"{D}._get_uri_prefix_to_luids")):
         ob.undecide(f"the numbered sequence derives from `{show(x)[:50]}`")
+
+
+@obligation("C19-X7", "IDX (shared with C01/C02): the lookup tables consulted by is_uri of the supplied converter hold every name of every record, unconditionally and completely, on the constructor path and in _index (converters built incrementally answer like freshly built ones)", floor=4)
+def x7(cx: Cx, ob: Ob) -> None:
+    from .c01 import check_table_roles
+
+    check_table_roles(cx, ob, ["reverse_prefix_map", "trie"])
+
+
+@obligation("C19-X8", "the Record model stores prefixes and URI prefixes verbatim: no pydantic string transformation (strip / case folding / length limits) in its model_config or field declarations", floor=1)
+def x8(cx: Cx, ob: Ob) -> None:
+    from ..rules import record_verbatim
+
+    record_verbatim(cx, ob)
+
+
+@obligation("C19-X4", "'returns a valid converter': the strict constructor rejects exactly the record sets in which a name is claimed twice - both duplicate detectors compare by exact equality over all pairs (shared with C04) - so prefixes that discover() legitimately tells apart (e.g. differing only by case) are accepted", floor=4)
+def x4(cx: Cx, ob: Ob) -> None:
+    from .c04 import d1 as c04_order, d2 as c04_matrix
+
+    c04_order(cx, ob)
+    c04_matrix(cx, ob)
+
+
+@obligation("C19-X6", "LOOKUP None-discipline (shared with C02-D3): lookup results and str|None results are tested with `is None`, never by truthiness - the empty prefix, the empty URI prefix and the empty identifier are legitimate values", floor=40)
+def x6(cx: Cx, ob: Ob) -> None:
+    from ..rules import scan_none_discipline
+    from .c02 import none_scope
+
+    scan_none_discipline(cx, ob, none_scope(cx))
